@@ -15,7 +15,7 @@ from typing import Dict, List, Optional, Set, Tuple
 
 from ..model import FuncInfo, ClassInfo, iter_own_nodes, strip_opt
 from ..mutation import Mutations, is_fresh
-from ..flow import always_raises, same_expr
+from ..flow import atomic_facts, always_raises, same_expr
 from .shared import find_containers, valid_types_table
 from .c18 import const_str
 
@@ -168,9 +168,24 @@ def _order_rule(ctx, mut: Mutations):
     run, prog = ctx.run, ctx.prog
     sro = prog.func('scoping', 'scope_resolution_order')
     rets = [n for n in iter_own_nodes(sro.node) if isinstance(n, ast.Return)]
-    if len(rets) != 1 or not isinstance(rets[0].value, ast.Name):
-        run.error('C14.order', sro.module.name, sro.qualname, 'return', 'expected a single `return <list>`')
+    final = [r for r in rets if r is sro.node.body[-1] and isinstance(r.value, ast.Name)]
+    if len(final) != 1:
+        run.error('C14.order', sro.module.name, sro.qualname, 'return', 'expected a final `return <list>`')
         return
+    # a return in front of the final one hands out a candidate list that was not built by the outward walk: a shortcut
+    # is only sound when no scope is left to walk (the calling scope is empty / absent)
+    params_ = [a.arg for a in sro.params()]
+    for r in rets:
+        if r is final[0]:
+            continue
+        facts = [(ast.unparse(c), pol) for c, pol in atomic_facts(ctx.flow.path_conditions(r))]
+        scope_empty = any((t in (f'{params_[1]}', f'{params_[1]}.items', 'current_scope.items') and not pol) or
+                          (t in (f'{params_[1]} is None', f'not {params_[1]}', f'not {params_[1]}.items') and pol) for t, pol in facts)
+        run.add('C14.order', sro.module.name, sro.qualname, r, scope_empty,
+                'shortcut for an empty calling scope: there is nothing to walk outwards' if scope_empty else
+                f'`{ast.unparse(r)[:50]}` returns before the outward walk under {[t for t, _p in facts][:2]}: the candidates of the '
+                f'enclosing scopes are missing, a partially qualified name is resolved as if it were fully qualified', node=r)
+    rets = final
     res = rets[0].value.id
     params = [a.arg for a in sro.params()]
     searchable, calling = params[0], params[1]
